@@ -123,4 +123,14 @@ CHECKS["C05"] = dict(
     assumptions=["strictly increasing grids with >=2 nodes", "H0 diagonal", "stored state read through the derived class is the oracle's input"],
     runs=[run("c05", "c05.cpp", shards=8), run("c05_asan", "c05.cpp", "asan", args=["--reduced"])],
 )
+
+CHECKS["C14"] = dict(
+    level=E,
+    rule="one forked child per case under ASan+UBSan: all 20 ordered pairs d1!=d2 x 25 binary entry points (4 '+' overloads, 2 '-', scalar product, iCommutator, ACommutator, 4 ElementwiseOperation overloads, "
+         "ElementwiseProduct, += / -= with vector and with proxies, Evolve(op,t) by construction / = / += / -=, Rotate(matrix)) x {own, external storage}; constructors and factories for d in {1,7,8}; "
+         "matrices r x c for r,c in 1..8 (non-square or unsupported); component lists of every length 1..64 that is not a supported square; factory indices up to d*d+2. "
+         "Oracle: a std::exception is thrown, every operand (and the red zone after external buffers) is bit-identical afterwards, no sanitizer report. distinct by case description",
+    assumptions=["SUTrace called directly and UTransform(SU_vector) are not in the statement's list", "dimension 0 is not in the statement's window"],
+    runs=[run("c14_asan", "c14.cpp", "asan", shards=16)],
+)
 NOT_APPLICABLE = {}
